@@ -1,7 +1,7 @@
 //! Engine: seeds, worker processes, proptest driving, shrinking, replay files, evidence,
 //! known-findings matching, watchdog.  Exit codes: 0 held, 1 violation, 2 inconclusive.
 use json::{object, JsonValue};
-use proptest::strategy::{BoxedStrategy, Strategy};
+use proptest::strategy::BoxedStrategy;
 use proptest::test_runner::{Config, RngSeed, TestCaseError, TestError, TestRunner};
 use std::cell::RefCell;
 use std::collections::{BTreeMap, BTreeSet};
@@ -260,7 +260,7 @@ pub fn heartbeat() {
 
 // ---------- known findings ----------
 #[derive(Clone, Debug)]
-pub struct KnownFinding { pub id: String, pub property: String, pub status: String, pub what: String, pub sub: String, pub minimal: JsonValue }
+pub struct KnownFinding { pub id: String, pub property: String, pub status: String, pub what: String, pub sub: String, pub minimal: JsonValue, pub also_seen_by: Vec<String> }
 
 pub fn verif_root() -> PathBuf {
     if let Ok(p) = std::env::var("VERIF_ROOT") { return PathBuf::from(p); }
@@ -284,6 +284,7 @@ pub fn load_known_findings() -> Result<Vec<KnownFinding>, String> {
             what: f["what"].as_str().unwrap_or("").to_string(),
             sub: f["sub"].as_str().unwrap_or("").to_string(),
             minimal: f["minimal"].clone(),
+            also_seen_by: f["also_seen_by"].members().filter_map(|x| x.as_str().map(|s| s.to_string())).collect(),
         });
     }
     Ok(out)
